@@ -147,3 +147,43 @@ MUTANTS += [
     dict(id='c11-symlink-resplit-dropped', props=['C11'], file='lib/lha_file_header.c',
          old='\treturn split_header_filename(header);\n}\n\n// Decode the path field in the header.', new='\treturn 1;\n}\n\n// Decode the path field in the header.'),
 ]
+MUTANTS += [
+    # ---- C12 ----
+    dict(id='c12-checksum-test-dropped', props=['C12'], file='lib/lha_file_header.c',
+         old='\treturn (result & 0xff) == csum;', new='\treturn (result & 0x7f) == (csum & 0x7f);'),
+    dict(id='c12-common-crc-test-dropped', props=['C12'], file='lib/lha_file_header.c',
+         old='\tif (LHA_FILE_HAVE_EXTRA(header, LHA_FILE_COMMON_CRC)\n\t && !check_common_crc(header)) {', new='\tif (LHA_FILE_HAVE_EXTRA(header, LHA_FILE_COMMON_CRC)\n\t && header->header_level == 3 && !check_common_crc(header)) {'),
+    dict(id='c12-ext-min-size', props=['C12', 'C08'], file='lib/lha_file_header.c',
+         old='\t\t} else if (ext_header_len < field_size + 1\n', new='\t\t} else if (ext_header_len < field_size\n'),
+    dict(id='c12-l1-packed-covers', props=['C12'], file='lib/lha_file_header.c',
+         old='\t\tif ((*header)->compressed_length < ext_header_len) {\n\t\t\treturn 0;\n\t\t}', new=''),
+    dict(id='c12-dir-without-path', props=['C12'], file='lib/lha_file_header.c',
+         old='\t} else {\n\t\tif (header->path == NULL) {\n\t\t\tgoto fail;\n\t\t}\n\t}', new='\t} else {\n\t\tif (header->path == NULL && header->header_level < 2) {\n\t\t\tgoto fail;\n\t\t}\n\t}'),
+    dict(id='c12-name-len-overrun', props=['C12', 'C08'], file='lib/lha_file_header.c',
+         old='\tif (min_len + path_len > header_len) {', new='\tif (min_len + path_len > header_len + 1U) {'),
+    dict(id='c12-ccrc-second-header-only', props=['C12'], file='lib/ext_header.c',
+         old='\theader->extra_flags |= LHA_FILE_COMMON_CRC;\n\theader->common_crc = lha_decode_uint16(data);',
+         new='\tif (data_len > 2) header->extra_flags |= LHA_FILE_COMMON_CRC;\n\theader->common_crc = lha_decode_uint16(data);'),
+]
+MUTANTS += [
+    dict(id='c12-iteration-continues-both-layers', props=['C12'], edits=[
+        ('lib/lha_basic_reader.c', '\tif (reader->curr_file == NULL) {\n\t\treader->eof = 1;\n\t\treturn NULL;\n\t}', '\tif (reader->curr_file == NULL) {\n\t\treturn NULL;\n\t}'),
+        ('lib/lha_reader.c', '\tif (reader->curr_file_type == CURR_FILE_EOF) {\n\t\treturn NULL;\n\t}', '\tif (reader->curr_file_type == CURR_FILE_EOF) {\n\t\treader->curr_file_type = CURR_FILE_START;\n\t}')]),
+]
+MUTANTS += [
+    # ---- C07 ----
+    dict(id='c07-crc-compare-dropped', props=['C07'], file='lib/lha_reader.c',
+         old='\t    && lha_decoder_get_crc(reader->inner_decoder)\n\t         == reader->curr_file->crc;', new='\t    && (lha_decoder_get_crc(reader->inner_decoder) & 0xff)\n\t         == (reader->curr_file->crc & 0xff);'),
+    dict(id='c07-length-compare-dropped', props=['C07'], file='lib/lha_reader.c',
+         old='\treturn lha_decoder_get_length(reader->inner_decoder)\n\t         == reader->curr_file->length\n\t    &&', new='\treturn lha_decoder_get_length(reader->inner_decoder)\n\t         <= reader->curr_file->length\n\t    &&'),
+    dict(id='c07-main-returns-0', props=['C07'], file='src/main.c',
+         old='\t\treturn !do_command(mode, argv[2], &options,\n\t\t                   argv + 3, argc - 3);', new='\t\tdo_command(mode, argv[2], &options,\n\t\t                   argv + 3, argc - 3);\n\t\treturn 0;'),
+    dict(id='c07-test-result-last-only', props=['C07'], file='src/extract.c',
+         old='\t\tif (!test_archived_file_crc(filter->reader, header, options)) {\n\t\t\tresult = 0;\n\t\t}', new='\t\tresult = test_archived_file_crc(filter->reader, header, options);'),
+    dict(id='c07-tested-line-always', props=['C07'], file='src/extract.c',
+         old='\t\tif (success) {\n\t\t\tprint_filename(filename, "Tested");', new='\t\tif (success || header->length == 0) {\n\t\t\tprint_filename(filename, "Tested");'),
+    dict(id='c07-extract-result-ignores-write', props=['C07'], file='lib/lha_reader.c',
+         old='\t\t\tresult = do_decode(reader, fstream);', new='\t\t\tresult = do_decode(reader, fstream) || reader->curr_file->length == 1;'),
+    dict(id='c07-check-empty-file-shortcut', props=['C07'], file='lib/lha_reader.c',
+         old='\t// Decode file.\n\n\treturn open_decoder(reader, callback, callback_data)', new='\t// Decode file.\n\n\tif (reader->curr_file->compressed_length == 0) return 1;\n\treturn open_decoder(reader, callback, callback_data)'),
+]
